@@ -18,7 +18,7 @@ use std::sync::atomic::{AtomicBool, AtomicU64, AtomicU8, Ordering};
 pub struct SimAlloc;
 
 pub const BASE: usize = 0x5100_0000_0000;
-pub const SIZE: usize = 1 << 31; // 2 GiB of address space, committed lazily
+pub const SIZE: usize = 1 << 32; // 4 GiB of address space, committed lazily
 
 pub const TAG_HARNESS: u8 = 0;
 pub const TAG_SUT: u8 = 1;
@@ -206,7 +206,7 @@ unsafe fn arena_alloc(layout: Layout) -> *mut u8 {
         if end > BASE + SIZE {
             // The simulator's own capacity, not a finding about the library: say so and stop (the
             // driver turns this into a harness error).
-            let msg = b"HARNESS arena exhausted (2 GiB): this run needs more memory than the simulator provides\n";
+            let msg = b"HARNESS arena exhausted (4 GiB): this run needs more memory than the simulator provides\n";
             libc::write(2, msg.as_ptr() as *const libc::c_void, msg.len());
             libc::_exit(3);
         }
